@@ -80,6 +80,8 @@ type Exec struct {
 	// inside that loop are not in scope (so a name means the same variable at
 	// loop entry and at the back edge)
 	invLoopBlocks map[*ssa.BasicBlock]bool
+	sumCache      map[string]*GhostSum
+	loopHdr       map[*loopInfo]*State // state at each loop header right after the invariants were assumed
 }
 
 type unsupportedErr struct{ msg string }
@@ -91,7 +93,7 @@ func (ex *Exec) unsupportedf(format string, a ...interface{}) {
 func newExec(ld *Loader, db *ContractDB, fn *ssa.Function) *Exec {
 	return &Exec{ld: ld, db: db, top: fn, vc: newVC(funcName(fn)), comps: map[string]compInfo{},
 		escaped: map[string]bool{}, oblCount: map[string]int{}, abstracted: map[string]bool{}, maxInline: 4,
-		epochInfo: map[int]epochInfo{}, ifacePayload: map[string]ifaceRec{}, heldAtEntry: map[string]bool{}, usedContracts: map[string]bool{}, revealed: map[string]bool{}, usedLemmas: map[string]bool{}}
+		epochInfo: map[int]epochInfo{}, ifacePayload: map[string]ifaceRec{}, heldAtEntry: map[string]bool{}, usedContracts: map[string]bool{}, revealed: map[string]bool{}, usedLemmas: map[string]bool{}, sumCache: map[string]*GhostSum{}}
 }
 
 // funcName gives the stable short name used in contracts and obligation
